@@ -124,9 +124,9 @@ CHECKS = {
                         "a data callback run synchronously by the caller's own Sync->Async flush is not a transport-initiated callback",
                         "call-return bound = the call's own timeout + simulator-injected stall + 100 ms"],
         "jobs": [
-            {"harness": "c05_teardown", "mode": "tcp", "flavour": "asan", "runs": {"quick": 7000, "thorough": 800000}, "wall": {"quick": 35, "thorough": 1500}, "seed_off": 1},
-            {"harness": "c05_teardown", "mode": "udp", "flavour": "asan", "runs": {"quick": 4000, "thorough": 400000}, "wall": {"quick": 20, "thorough": 900}, "seed_off": 2},
-            {"harness": "c05_teardown", "mode": "tcp", "flavour": "tsan", "runs": {"quick": 2500, "thorough": 300000}, "wall": {"quick": 25, "thorough": 1200}, "seed_off": 3},
+            {"harness": "c05_teardown", "mode": "tcp", "flavour": "asan", "runs": {"quick": 4500, "thorough": 800000}, "wall": {"quick": 35, "thorough": 1500}, "seed_off": 1},
+            {"harness": "c05_teardown", "mode": "udp", "flavour": "asan", "runs": {"quick": 2500, "thorough": 400000}, "wall": {"quick": 20, "thorough": 900}, "seed_off": 2},
+            {"harness": "c05_teardown", "mode": "tcp", "flavour": "tsan", "runs": {"quick": 2000, "thorough": 300000}, "wall": {"quick": 25, "thorough": 1200}, "seed_off": 3},
             {"harness": "c05_teardown", "mode": "udp", "flavour": "tsan", "runs": {"quick": 1500, "thorough": 150000}, "wall": {"quick": 15, "thorough": 600}, "seed_off": 4},
         ],
     },
